@@ -226,6 +226,7 @@ func c21Body(x *explore.Ctx, kinds []string, pkts []mcPkt, limit int, overlap bo
 		maxBuffered  int
 		sawStaleSeen bool
 		void         bool // the case index names an event that does not exist: nothing to explore
+		srcFailed    bool // the one transient poll error of the schedule has been delivered
 	)
 	inflight := func() (n int, kind string) {
 		for _, r := range reqs {
@@ -311,6 +312,12 @@ func c21Body(x *explore.Ctx, kinds []string, pkts []mcPkt, limit int, overlap bo
 			evs = append(evs, ev{fmt.Sprintf("rel:%s#%d", s.kind, s.n), func() { src.Release(i) }})
 		}
 		_ = curKind
+		// once per schedule the poll may fail with a transient error while the capture is buffering (in
+		// bufferPackets; outside a pause such an error ends the capture by design). Only with the production
+		// buffer and one request at a time, to keep the cases small.
+		if !srcFailed && limit == 0 && !overlap && nfl > 0 && !src.pending && src.Buffering() {
+			evs = append(evs, ev{"source-error", func() { srcFailed = true; src.FailOnce() }})
+		}
 		if nextReq < len(reqs) && (nfl == 0 || (overlap && nfl == 1)) {
 			r := reqs[nextReq]
 			evs = append(evs, ev{"start:" + r.kind, func() { nextReq++; start(r) }})
@@ -594,7 +601,7 @@ func popcount(m int) (n int) {
 func init() {
 	register("C21", &explore.Scenario{
 		ID: "C21", Name: "three-point lock: packet arrival x write-out / status / live-query pauses, all orders", Level: "model_checking",
-		Rule:  "cases = request pair (writeout|status|live)^2, run one after the other, x 3 packet sequences (mixed IPv4/IPv6, both directions, distinct sizes, one with a non-first fragment; 3 packets quick, 4 thorough) x local buffer {production size and limit; limit 48 bytes = overflow at the 2nd/3rd buffered packet; initial size 48 bytes growing up to the production limit = growth at the 2nd/3rd buffered packet while the buffer holds packets; thorough also 24 bytes (limit / initial size) = at the 1st/2nd}; thorough adds the pairs (live,writeout) (live,status) (live,live) (writeout,live) with TWO local buffers where the second request may start while the first pause is on (3 packets); each overlapping pair is split by its first event choice, encoded in the case index to keep cases of similar size (digits that name no enabled event give void cases). Per case ALL orders of the events {next packet arrives, parked poll sees the pending unblock, release a requester from Unblock / Stats / just-locked (live), start next request} with the bubble run to quiescence after each; state = (packets delivered, ring, packets held back in the local buffer, unblock pending, poll parked, lock/unlock requested, flow-log hash, request phases, parked seams, write-outs); non-trivial = schedules in which packets were held back in the local buffer, distinct by (requests, maximum held back, overflows, stale unblock seen) and by the set of packets lost to a reported overflow",
+		Rule:  "cases = request pair (writeout|status|live)^2, run one after the other, x 3 packet sequences (mixed IPv4/IPv6, both directions, distinct sizes, one with a non-first fragment; 3 packets quick, 4 thorough) x local buffer {production size and limit; limit 48 bytes = overflow at the 2nd/3rd buffered packet; initial size 48 bytes growing up to the production limit = growth at the 2nd/3rd buffered packet while the buffer holds packets; thorough also 24 bytes (limit / initial size) = at the 1st/2nd}; thorough adds the pairs (live,writeout) (live,status) (live,live) (writeout,live) with TWO local buffers where the second request may start while the first pause is on (3 packets); each overlapping pair is split by its first event choice, encoded in the case index to keep cases of similar size (digits that name no enabled event give void cases). Per case ALL orders of the events {next packet arrives, parked poll sees the pending unblock, (production buffer, one request at a time: once per schedule) the parked poll fails with a transient error while the capture is buffering, release a requester from Unblock / Stats / just-locked (live), start next request} with the bubble run to quiescence after each; state = (packets delivered, ring, packets held back in the local buffer, unblock pending, poll parked, lock/unlock requested, flow-log hash, request phases, parked seams, write-outs); non-trivial = schedules in which packets were held back in the local buffer, distinct by (requests, maximum held back, overflows, stale unblock seen) and by the set of packets lost to a reported overflow",
 		Cases: c21Cases,
 		Bound: func(string) int { return 0 },
 		Run:   c21Run, Setup: mcSetup, PanicSig: "panic",
